@@ -704,6 +704,23 @@ class InitTr(Tr):
         return Tr.block(self, stmts, env, k, H)
 
 
+# every source function whose control flow is regenerated on every run (tools/coverage_map.py).  The two decorators
+# are listed because their whole body (inner def, __doc__ copy, return) is checked by check_outer; the callback nested
+# in `changed` is compared literally by callback_def.
+TRANSLATED = [
+    'pyramid/session.py:manage_accessed', 'pyramid/session.py:manage_accessed.accessed',
+    'pyramid/session.py:manage_changed', 'pyramid/session.py:manage_changed.changed',
+    'pyramid/session.py:BaseCookieSessionFactory.CookieSession.__init__',
+    'pyramid/session.py:BaseCookieSessionFactory.CookieSession.changed',
+    'pyramid/session.py:BaseCookieSessionFactory.CookieSession.invalidate',
+    'pyramid/session.py:BaseCookieSessionFactory.CookieSession.flash',
+    'pyramid/session.py:BaseCookieSessionFactory.CookieSession.pop_flash',
+    'pyramid/session.py:BaseCookieSessionFactory.CookieSession.peek_flash',
+    'pyramid/session.py:BaseCookieSessionFactory.CookieSession.new_csrf_token',
+    'pyramid/session.py:BaseCookieSessionFactory.CookieSession.get_csrf_token',
+    'pyramid/session.py:BaseCookieSessionFactory.CookieSession._set_cookie',
+]
+
 SESS = ('s0', 'SESSOBJ')
 FUNCS = [
     dict(qual='BaseCookieSessionFactory.CookieSession.changed', gen='gen_changed', ret='SESS',
